@@ -247,7 +247,7 @@ pub fn state_key(case: &Case, j: &Judged) -> u64 {
     h.u64(info.width as u64);
     h.u64(info.prec as u64);
     h.u64((info.fill_align != 0) as u64);
-    h.u64(info.plus as u64);
+    h.u64(info.sign as u64);
     h.u64(info.zero as u64);
     h.u64(case.sink_kind as u64);
     let d = &j.dm;
